@@ -13,5 +13,5 @@ for P in $PID "$@"; do
   echo "== $P exit=$rc"; grep -E "^VIOLATION|^KNOWN-FINDING|tier=" /tmp/seedtry/$P.$$.log | cut -c1-260
 done
 rm -rf $S
-# restore generated tables to those of /repo
-./check C20 --tier quick > /dev/null 2>&1
+# restore generated tables to those of /repo (TRY_NO_RESTORE=1: the caller does it once at the end of a batch)
+[ -n "${TRY_NO_RESTORE:-}" ] || ./check C20 --tier quick > /dev/null 2>&1
